@@ -105,6 +105,36 @@ theorem transDecide_ok (mode prevMode fsz fs : Int) (hm : ModeOk mode)
       · exact hm
   · exact hm
 
+/-- Frames shorter than 10 ms are always coded CELT-only (:1467-1470 and the transition logic). -/
+theorem modeDecide_short (s : St) (fuzz : Bool) (o : NatOr) (ve er fsz m : Int) (rands : List Int)
+    (h : fsz < s.fs / 100) : (modeDecide s fuzz o ve er fsz m rands).1 = MODE_CELT_ONLY := by
+  unfold modeDecide
+  dsimp only
+  split
+  · rfl
+  · split
+    · rfl
+    · rename_i h1 h2
+      have : ¬ ((modeReq s fuzz o ve er fsz m rands).1 ≠ MODE_CELT_ONLY) := fun hh => h2 ⟨hh, h⟩
+      exact Decidable.not_not.mp this
+
+theorem transDecide_short (mode prevMode fsz fs : Int) (hm : mode = MODE_CELT_ONLY) (h : fsz < fs / 100) :
+    (transDecide mode prevMode fsz fs).mode = MODE_CELT_ONLY := by
+  unfold transDecide
+  split
+  · split
+    · rename_i h2; exact absurd hm h2
+    · split
+      · omega
+      · exact hm
+  · exact hm
+
+theorem decFec_celt (s : St) (er : Int) (h : s.mode = MODE_CELT_ONLY) : (decFec s er).mode = MODE_CELT_ONLY := by
+  unfold decFec
+  simp only [MODE_SILK_ONLY, MODE_HYBRID, MODE_CELT_ONLY] at *
+  (try dsimp only)
+  (repeat' split) <;> (try dsimp only) <;> omega
+
 theorem decChan_same (s : St) (fuzz : Bool) (o : NatOr) (fsz : Int) : Same s (decChan s fuzz o fsz).1 := rfl
 
 theorem decMode_same (s : St) (t : Trans) : Same s (decMode s t) := by
@@ -193,7 +223,8 @@ theorem decide'_spec (s : St) (fuzz : Bool) (o : NatOr) (fsz m : Int) (hs : Sett
     Same s (decide' s fuzz o fsz m).st ∧ ModeOk (decide' s fuzz o fsz m).st.mode ∧
     BwOk (decide' s fuzz o fsz m).st.bandwidth ∧
     ((decide' s fuzz o fsz m).st.mode = MODE_SILK_ONLY → (decide' s fuzz o fsz m).st.bandwidth ≤ BW_WB) ∧
-    ((decide' s fuzz o fsz m).st.mode = MODE_HYBRID → BW_SWB ≤ (decide' s fuzz o fsz m).st.bandwidth) := by
+    ((decide' s fuzz o fsz m).st.mode = MODE_HYBRID → BW_SWB ≤ (decide' s fuzz o fsz m).st.bandwidth) ∧
+    ((decide' s fuzz o fsz m).st.mode ≠ MODE_CELT_ONLY → s.fs / 100 ≤ fsz) := by
   let a := decChan s fuzz o fsz
   let md := modeDecide a.1 fuzz o (voiceEst s)
               (computeEquivRate s.bitrateBps a.1.streamChannels (s.fs / fsz) s.useVbr 0 s.complexity s.lossPerc)
@@ -221,7 +252,16 @@ theorem decide'_spec (s : St) (fuzz : Bool) (o : NatOr) (fsz m : Int) (hs : Sett
   obtain ⟨h3s, h3m, h3b⟩ := detectedClamp_spec c2 er h2b
   have h3mode : ModeOk c3.mode := by rw [h3m, h2m, h1m]; exact hbm
   obtain ⟨h4s, h4m, h4b, h4w, h4h⟩ := decFec_spec c3 er h3mode h3b
+  have hshort : (decFec c3 er).mode ≠ MODE_CELT_ONLY → s.fs / 100 ≤ fsz := by
+    intro hne
+    apply Decidable.byContradiction
+    intro hlt
+    have hlt' : fsz < s.fs / 100 := by omega
+    have h1 : md.1 = MODE_CELT_ONLY := modeDecide_short a.1 fuzz o _ _ fsz m a.2 hlt'
+    have h2 : t.mode = MODE_CELT_ONLY := transDecide_short md.1 s.prevMode fsz s.fs h1 hlt'
+    have h3 : c3.mode = MODE_CELT_ONLY := by rw [h3m, h2m, h1m, decMode_mode]; exact h2
+    exact hne (decFec_celt c3 er h3)
   rw [hst]
-  exact ⟨(((hsb.trans h1s).trans h2s).trans h3s).trans h4s, h4m, h4b, h4w, h4h⟩
+  exact ⟨(((hsb.trans h1s).trans h2s).trans h3s).trans h4s, h4m, h4b, h4w, h4h, hshort⟩
 
 end Opus.EncSkel.Proofs
